@@ -39,7 +39,57 @@ THEOREMS = [
     "KrroodVerif.Pred.C12_history",
     "KrroodVerif.Pred.C12_cex_positional",
     "KrroodVerif.Pred.C12_cex_shared",
+    "KrroodVerif.Pred.C12_rejected",
+    "KrroodVerif.Pred.C12_rejected_partial",
+    "KrroodVerif.Pred.C12_cex_rejected",
+    "KrroodVerif.Pred.isInstance_eq_isVar",
+    "KrroodVerif.Pred.any_isInstance_eq_isSymbolic",
 ]
+TRANSLATED = ["KrroodVerif.Pred.Translated.C12_merge_translated_eq_model",
+              "KrroodVerif.Pred.Translated.C12_decision_translated_eq_model",
+              "KrroodVerif.Pred.Translated.C12_dispatch_translated_eq_model",
+              "KrroodVerif.Pred.Translated.C12_translated_merge_eq_bind",
+              "KrroodVerif.Pred.Translated.C12_translated_meets_property"]
+
+
+def extra_obligations():
+    """Second tie: regenerate from /repo's CURRENT source (Python ast of predicate.py and symbolic.py) the merge, the
+    symbolic/concrete decision (incl. the class statements it depends on) and the two dispatchers, and have the Lean
+    kernel re-check that they ARE the model's `mergeArgs` / `isSymbolic` / `dispatch codeQuirks` for every signature and
+    call split, and that the property theorems hold of the translated functions."""
+    import os
+    import re
+    import subprocess
+    from translate.c12_translate import generate as gen, TranslationError
+    try:
+        text = gen(core.REPO)
+    except (TranslationError, SyntaxError, OSError, RecursionError) as e:
+        return [{"name": n, "ok": False, "detail": f"translator rejected the source: {e}"} for n in TRANSLATED]
+    tmp = core.LEAN_DIR / ".lake" / "audit"
+    tmp.mkdir(parents=True, exist_ok=True)
+    f = tmp / f"C12Translated_{os.getpid()}.lean"
+    f.write_text(text + "".join(f"#print axioms {n}\n" for n in TRANSLATED))
+    try:
+        p = subprocess.run(["lake", "env", "lean", str(f)], cwd=str(core.LEAN_DIR), capture_output=True, text=True,
+                           timeout=600)
+    finally:
+        try:
+            f.unlink()
+        except OSError:
+            pass
+    out = " ".join(((p.stdout or "") + (p.stderr or "")).split())
+    res = []
+    for n in TRANSLATED:
+        m = re.search(r"'" + re.escape(n) + r"' depends on axioms: \[([^\]]*)\]", out)
+        none = re.search(r"'" + re.escape(n) + r"' does not depend on any axioms", out)
+        ax = [a.strip() for a in m.group(1).split(",")] if m else ([] if none else None)
+        ok = ax is not None and set(ax) <= core.ALLOWED_AXIOMS and "sorryAx" not in (ax or [])
+        res.append({"name": n, "ok": ok, "axioms": ax,
+                    "detail": "regenerated definitions:\n" + text[text.find("def classTable"):text.find("/-- the merge of the current")]
+                              + (p.stdout or "")[-1500:] + (p.stderr or "")[-800:]})
+    return res
+
+
 MODEL_FUNCTION = ("Pred.mergeArgs / Pred.dispatch / Pred.evalSym / Pred.run / Pred.runHistory with Drive.C12.codeQuirks "
                   "(Model/Predicate.lean); specification Pred.bind / Pred.spec")
 TRUSTED = [
@@ -74,6 +124,14 @@ RULE = ("exhaustive small scope: every signature of arity 1..4 (quick) / 1..5 (t
         "==-equal values of different types (1 / 1.0 / True / Fraction(1) / 1+0j, 0 / 0.0 / False, two equal tuples, "
         "two equal frozensets), value-equal user objects and equal lists, every pair of variants of one number for "
         "every kind, the call log identifying each constant by identity; "
+        "plus a signature stream: keyword-only parameters (def f(a, *, b, c=7), dataclass fields with kw_only=True) in every "
+        "accepted call shape of arity 1..3, and every such call spoiled by one defect Python rejects (surplus positional, "
+        "keyword-only passed positionally, parameter passed positionally and by keyword, unknown keyword, missing "
+        "argument), where the property demands that TypeError at the call or from the evaluation; over EVERY stream two "
+        "environment variations the model ignores: Predicate subclasses whose constructor DERIVES the state __call__ reads "
+        "(__post_init__ of a dataclass / hand-written __init__ keeping nothing under the parameter names), and calls BUILT "
+        "(and in half of the cases evaluated) while another query's lazily consumed evaluate() generator over a predicate "
+        "/ symbolic function is suspended between two next() calls and finished afterwards; "
         "non-trivial = the call is symbolic and the result set is neither empty nor every candidate binding, or the "
         "call is concrete with at least two parameters; distinct by case text")
 EXHAUSTIVE = True
@@ -86,9 +144,18 @@ NAMES = ["a", "b", "c", "d", "e"]
 class Spec:
     """Structured form of a case (payload)."""
 
-    def __init__(self, kind, params, pos, kw, doms, pre, neg, salt, mod, vals, knobs=None, hist=None):
+    def __init__(self, kind, params, pos, kw, doms, pre, neg, salt, mod, vals, knobs=None, hist=None, kwonly=None):
         self.kind = kind  # fn | method | pred
         self.params = params  # [(name, default or None)]
+        self.kwonly = set(kwonly or ())  # names of the keyword-only parameters (a suffix of params): `def f(a, *, b)`
+        # shape of the Predicate subclass (kind pred only): "" = plain dataclass that holds its parameters; "post" = the
+        # dataclass derives its state in __post_init__ and __call__ reads ONLY the derived state; "init" = hand-written
+        # __init__ that stores only derived state (no attribute named like a parameter)
+        self.ctor = ""
+        # the call is BUILT while another query's evaluate() generator (over a predicate "pred" / a symbolic function
+        # "fn") is suspended between two next() calls; susp_eval: it is also evaluated inside that window
+        self.susp = ""
+        self.susp_eval = False
         self.pos = pos  # [("l", n) | ("l", n, t) | ("v", i) | ("a", i, k)]   ("a": variable i through accessor k, see
         # ACCESSORS; ("l", n, t): constant number n in variant t - an ==-equal but different object, see CONST_VARIANTS)
         self.knobs = dict(knobs or {})  # class-level knob name -> True if the non-default alternative is set
@@ -108,7 +175,8 @@ class Spec:
             if x[0] == "l" and len(x) > 2 and x[2]:
                 return f"(l {x[1]} {x[2]})"
             return f"({x[0]} {x[1]})"
-        ps = " ".join(f"({n})" if d is None else f"({n} {d})" for n, d in self.params)
+        ps = " ".join((f"({n}" if d is None else f"({n} {d}") + (" kw)" if n in self.kwonly else ")")
+                      for n, d in self.params)
         pos = " ".join(a(x) for x in self.pos)
         kw = " ".join(f"({n} {a(x)})" for n, x in self.kw)
         doms = " ".join("(" + " ".join(map(str, [i] + list(vs))) + ")" for i, vs in sorted(self.doms.items()))
@@ -116,6 +184,10 @@ class Spec:
         extra = ""
         if self.knobs:
             extra += " (knobs " + " ".join(f"({n} {'T' if v else 'F'})" for n, v in sorted(self.knobs.items())) + ")"
+        if self.ctor:
+            extra += f" (ctor {self.ctor})"
+        if self.susp:
+            extra += f" (susp {self.susp} {'T' if self.susp_eval else 'F'})"
         if self.hist:
             extra += " (hist " + " ".join(
                 "(" + " ".join(f"({o} {st})" for o, st in sorted(wd.items())) + ")" for wd in self.hist) + ")"
@@ -125,6 +197,24 @@ class Spec:
 
     def written(self):
         return list(self.pos) + [x for _, x in self.kw]
+
+    def rejected_why(self) -> Optional[str]:
+        """why Python itself rejects the call as written (None: accepted)"""
+        names = [n for n, _ in self.params]
+        npos = len([n for n in names if n not in self.kwonly])
+        kwn = [n for n, _ in self.kw]
+        if len(self.pos) > len(names):
+            return "too-many-positional"
+        if len(self.pos) > npos:
+            return "kwonly-positional"
+        if any(n in names[:len(self.pos)] for n in kwn):
+            return "multiple-values"
+        if any(n not in names for n in kwn):
+            return "unexpected-keyword"
+        given = set(names[:len(self.pos)]) | set(kwn)
+        if any(d is None and n not in given for n, d in self.params):
+            return "missing-argument"
+        return None
 
     def var_order(self) -> List[int]:
         out = []
@@ -148,6 +238,16 @@ class Spec:
             t.append("neg")
         if len(w) < len(self.params):
             t.append("default-used")
+        if self.kwonly:
+            t.append("kwonly")
+            if any(d is not None and n in self.kwonly and n not in dict(self.kw) for n, d in self.params):
+                t.append("kwonly-default-used")
+        why = self.rejected_why()
+        if why:
+            t.append("rejected")
+            t.append("rejected-" + why)
+            if nv:
+                t.append("rejected-with-variable")
         if self.vals in FALSY_FLAVOURS and self.vals != "int" or any(0 in d for d in self.doms.values()):
             t.append("vals-" + self.vals)
         zero_vars = {i for i, d in self.doms.items() if 0 in d}
@@ -169,6 +269,11 @@ class Spec:
                 t.append("accessor-" + ACCESSORS.get(x[2], ("?",))[0])
         if any(x[0] == "a" for x in w):
             t.append("accessor")
+        if self.ctor:
+            t.append("ctor-" + self.ctor)
+        if self.susp:
+            t.append("suspended-" + self.susp)
+            t.append("suspended-eval-inside" if self.susp_eval else "suspended-build-only")
         if self.hist:
             t.append(f"history{len(self.hist)}")
         for n, v in sorted(self.knobs.items()):
@@ -205,15 +310,20 @@ def parse_line(line: str) -> Spec:
             return ("l", int(x[1]), int(x[2]))
         return (x[0], int(x[1]))
 
-    params = [(p[0], int(p[1]) if len(p) > 1 else None) for p in f["params"]]
+    kwonly = {p[0] for p in f["params"] if p[-1] == "kw"}
+    params = [(p[0], int(p[1]) if len(p) > 1 and p[1] != "kw" else None) for p in f["params"]]
     pos = [arg(x) for x in f["pos"]]
     kw = [(x[0], arg(x[1])) for x in f["kw"]]
     doms = {int(d[0]): [int(v) for v in d[1:]] for d in f["doms"]}
     pre = [int(x) for x in f["pre"]]
     knobs = {k[0]: k[1] == "T" for k in f.get("knobs", [])}
     hist = [{int(o): int(st) for o, st in wd} for wd in f.get("hist", [])]
-    return Spec(kind, params, pos, kw, doms, pre, f["neg"][0] == "T", int(f["body"][0]), int(f["body"][1]),
-                f.get("vals", ["obj"])[0], knobs, hist)
+    sp = Spec(kind, params, pos, kw, doms, pre, f["neg"][0] == "T", int(f["body"][0]), int(f["body"][1]),
+              f.get("vals", ["obj"])[0], knobs, hist, kwonly)
+    sp.ctor = f.get("ctor", [""])[0]
+    if "susp" in f:
+        sp.susp, sp.susp_eval = f["susp"][0], f["susp"][1] == "T"
+    return sp
 
 
 def mk_case(sp: Spec, origin: str) -> Case:
@@ -444,7 +554,188 @@ def generate(rng, tier, n):
     cases.extend(_falsy_cases(rng, tier))
     cases.extend(_stateful_cases(rng, tier))
     cases.extend(_constant_cases(rng, tier))
-    return cases
+    cases.extend(_signature_cases(rng, tier))
+    return _environment_variants(rng, cases)
+
+
+def _environment_variants(rng, cases: List[Case]) -> List[Case]:
+    """Two variations the property is indifferent to, drawn over EVERY stream (the Lean model ignores both fields):
+    (a) the shape of the Predicate subclass: its constructor derives the state `__call__` reads from the parameters
+        (`__post_init__` of a dataclass, or a hand-written normalising `__init__`) - the concrete call constructs the
+        predicate from the values, so every invocation for a candidate must see the state derived from THAT candidate;
+    (b) the moment of construction: the call is built (and in half of the cases evaluated) while another query's lazily
+        consumed `evaluate()` generator - over a predicate or a symbolic function - is suspended between two `next()`
+        calls, and that query is finished afterwards.
+    Plus a small deterministic family of both."""
+    out: List[Case] = []
+    for c in cases:
+        sp: Spec = c.payload
+        changed = False
+        if sp.kind == "pred" and rng.random() < 0.35:
+            sp.ctor = rng.choice(["post", "init"])
+            changed = True
+        if rng.random() < 0.12:
+            sp.susp = rng.choice(["pred", "fn"])
+            sp.susp_eval = rng.random() < 0.5
+            changed = True
+        out.append(mk_case(sp, c.origin) if changed else c)
+    for ctor in ("post", "init"):
+        for neg in (False, True):
+            for pre in ([], [0]):
+                for shape in range(4):
+                    sp = Spec("pred", [("a", None), ("b", 8)], [], [], {0: [1, 2, 3, 4]}, list(pre), neg, 0, 2,
+                              rng.choice(["obj", "int"]), {name: rng.random() < 0.5 for name in knobs_table()})
+                    if shape == 0:
+                        sp.pos = [("v", 0)]
+                    elif shape == 1:
+                        sp.kw = [("a", ("v", 0))]
+                    elif shape == 2:
+                        sp.pos, sp.kw = [("l", 2)], [("b", ("v", 0))]
+                    else:
+                        sp.params, sp.kwonly = [("a", None), ("b", None)], {"b"}
+                        sp.pos, sp.kw = [("v", 0)], [("b", ("l", 3))]
+                    sp.ctor = ctor
+                    out.append(mk_case(sp, "exhaustive"))
+    for kind in ("fn", "method", "pred"):
+        for susp in ("pred", "fn"):
+            for inside in (False, True):
+                for pre in ([], [0]):
+                    for shape in range(2):
+                        sp = Spec(kind, [("a", None), ("b", 8)], [], [], {0: [1, 2, 3]}, list(pre), False, 0, 2,
+                                  rng.choice(["obj", "int"]), {name: rng.random() < 0.5 for name in knobs_table()})
+                        if shape == 0:
+                            sp.pos = [("v", 0)]
+                        else:
+                            sp.pos, sp.kw = [("l", 2)], [("b", ("v", 0))]
+                        sp.susp, sp.susp_eval = susp, inside
+                        out.append(mk_case(sp, "exhaustive"))
+    return out
+
+
+def _signature_cases(rng, tier) -> List[Case]:
+    """Wider signatures and calls Python itself rejects.
+    (a) keyword-only parameters (`def f(a, *, b, c=7)`, dataclass fields with `kw_only=True`), with and without
+        defaults, passed or left to their default: every accepted call shape of arity 1..3 (quick) / 1..4 (thorough)
+        for the three kinds, plus random ones;
+    (b) calls Python rejects, derived from an accepted call by ONE defect: a surplus positional argument, a
+        keyword-only parameter passed positionally, a parameter passed positionally and by keyword, an unknown
+        keyword, a required argument left out - with every variable/object pattern of the written arguments. The
+        property then demands the TypeError of the concrete call, at the call or from the evaluation."""
+    out: List[Case] = []
+
+    def mk(kind, npos, ndp, kwo, supplied_opt, k, pattern_bits, defect=None, share=False):
+        # npos positional-or-keyword parameters, the last ndp with defaults; kwo = [has_default] per keyword-only one
+        n = npos + len(kwo)
+        names = NAMES[:n] if rng.random() < 0.7 else rng.sample(
+            ["a", "b", "c", "d", "obj", "other", "x_", "value", "name", "type_"], n)
+        dfl = [None] * (npos - ndp) + [rng.randrange(5, 10) for _ in range(ndp)] + \
+              [rng.randrange(5, 10) if has else None for has in kwo]
+        params = list(zip(names, dfl))
+        kwonly = set(names[npos:])
+        supplied = [j for j in range(n) if dfl[j] is None or j in supplied_opt]
+        k = min(k, npos)
+        while k > 0 and any(j not in supplied for j in range(k)):
+            k -= 1
+        written = [("p", j) for j in supplied if j < k] + [("k", j) for j in supplied if j >= k]
+        extra_kw = None
+        if defect == "too-many-positional":
+            if k != npos or any(j < npos and j not in supplied for j in range(npos)):
+                return None
+            # every positional slot is taken: one more positional (it lands on a keyword-only name or beyond)
+            written = [w for w in written if w[0] == "p"] + [("p", "surplus")] + [w for w in written if w[0] == "k"]
+        elif defect == "kwonly-positional":
+            firstk = [j for j in supplied if j >= npos]
+            if k != npos or not firstk or firstk[0] != npos:
+                return None
+            written = [("p", j) if j == npos else w for w, j in [(w, w[1]) for w in written]]
+            written.sort(key=lambda w: (w[0] != "p", w[1] if isinstance(w[1], int) else 99))
+        elif defect == "multiple-values":
+            if k == 0:
+                return None
+            written = written + [("k", rng.randrange(0, k))]
+        elif defect == "unexpected-keyword":
+            extra_kw = "zz"
+            written = written + [("k", "zz")]
+        elif defect == "missing-argument":
+            req = [w for w in written if isinstance(w[1], int) and dfl[w[1]] is None and w[0] == "k"]
+            if not req:
+                return None
+            written.remove(rng.choice(req))
+        m = len(written)
+        pattern = [bool(pattern_bits >> j & 1) for j in range(m)]
+        ids: List[int] = []
+        for is_var in pattern:
+            if is_var:
+                ids.append(rng.choice(ids) if share and ids and rng.random() < 0.5 else max(ids, default=-1) + 1)
+        it = iter(ids)
+        args = [("v", next(it)) if is_var else ("l", rng.randrange(1, 5)) for is_var in pattern]
+        pos = [a for (w, _), a in zip(written, args) if w == "p"]
+        kw = [(names[j] if isinstance(j, int) else extra_kw, a) for (w, j), a in zip(written, args) if w == "k"]
+        if len({nm for nm, _ in kw}) < len(kw):
+            return None
+        rng.shuffle(kw)
+        doms = {i: rng.sample(range(1, 6), rng.randrange(1, 4)) for i in sorted(set(ids))}
+        while _ncombos(doms, ids) > 30:
+            j = max(doms, key=lambda i: len(doms[i]))
+            doms[j] = doms[j][:-1]
+        pre = [i for i in sorted(set(ids)) if rng.random() < 0.2]
+        mod = rng.choice([2, 2, 3])
+        knobs = {name: rng.random() < 0.5 for name in knobs_table()}
+        return Spec(kind, params, pos, kw, doms, pre, rng.random() < 0.2, rng.randrange(0, mod), mod,
+                    rng.choice(["obj", "int"]), knobs, [], kwonly)
+
+    def shapes(max_arity):
+        for n in range(1, max_arity + 1):
+            for nk in range(0, n + 1):
+                npos = n - nk
+                for ndp in range(0, npos + 1):
+                    for kmask in range(1 << nk):
+                        yield npos, ndp, [bool(kmask >> j & 1) for j in range(nk)]
+
+    max_arity = 3 if tier == "quick" else 4
+    DEFECTS = ["too-many-positional", "kwonly-positional", "multiple-values", "unexpected-keyword", "missing-argument"]
+    for kind in ("fn", "method", "pred"):
+        for npos, ndp, kwo in shapes(max_arity):
+            n = npos + len(kwo)
+            opt = [j for j in range(n) if (npos - ndp <= j < npos) or (j >= npos and kwo[j - npos])]
+            for omask in range(1 << len(opt)):
+                supplied_opt = {opt[j] for j in range(len(opt)) if omask >> j & 1}
+                for k in range(0, npos + 1):
+                    # (a) accepted calls with keyword-only parameters: every variable/object pattern
+                    if kwo:
+                        sp0 = mk(kind, npos, ndp, kwo, supplied_opt, k, 0)
+                        m = len(sp0.written()) if sp0 else 0
+                        for bits in (range(1 << m) if m <= 3 else [rng.randrange(1 << m) for _ in range(4)]):
+                            sp = mk(kind, npos, ndp, kwo, supplied_opt, k, bits, share=rng.random() < 0.2)
+                            if sp is not None:
+                                out.append(mk_case(sp, "exhaustive"))
+                    # (b) one defect; patterns: all variables, one variable, a random one, none
+                    for defect in DEFECTS:
+                        sp0 = mk(kind, npos, ndp, kwo, supplied_opt, k, 0, defect)
+                        if sp0 is None:
+                            continue
+                        m = len(sp0.written())
+                        pats = {(1 << m) - 1, 1 << rng.randrange(m) if m else 0, rng.randrange(1 << m) if m else 0}
+                        if rng.random() < 0.15:
+                            pats.add(0)
+                        for bits in sorted(pats):
+                            sp = mk(kind, npos, ndp, kwo, supplied_opt, k, bits, defect, share=rng.random() < 0.2)
+                            if sp is not None:
+                                out.append(mk_case(sp, "exhaustive"))
+    for _ in range(400 if tier == "quick" else 4000):
+        kind = rng.choice(["fn", "method", "pred", "pred"])
+        n = rng.randrange(1, 6)
+        nk = rng.randrange(0, n + 1)
+        npos = n - nk
+        ndp = rng.randrange(0, npos + 1)
+        kwo = [rng.random() < 0.5 for _ in range(nk)]
+        supplied_opt = {j for j in range(n) if rng.random() < 0.5}
+        defect = rng.choice(DEFECTS + [None, None]) if nk else rng.choice(DEFECTS)
+        sp = mk(kind, npos, ndp, kwo, supplied_opt, rng.randrange(0, npos + 1), rng.randrange(1 << 6), defect,
+                share=rng.random() < 0.3)
+        if sp is not None:
+            out.append(mk_case(sp, "random"))
+    return out
 
 
 def _constant_cases(rng, tier) -> List[Case]:
@@ -590,6 +881,15 @@ def _falsy_cases(rng, tier) -> List[Case]:
     return out
 
 
+def compare(impl: str, expected: str) -> bool:
+    """`invalid` (specification only): Python itself rejects the call as written - the property demands that
+    TypeError, at the call or from every evaluation of the condition; everything else is compared literally"""
+    if expected == "invalid":
+        return impl == "exc:TypeError" or (impl.startswith("S ") and all(
+            part in ("S exc:TypeError", "exc:TypeError") for part in impl.split(" ;; ")))
+    return impl == expected
+
+
 def nontrivial(case: Case, spec: str) -> bool:
     if spec.startswith("C "):
         return spec.count(",") >= 1
@@ -623,6 +923,11 @@ def shrink(case: Case):
             out.append(v)
 
     add(lambda c: setattr(c, "neg", False))
+    if sp.ctor:
+        add(lambda c: setattr(c, "ctor", ""))
+    if sp.susp:
+        add(lambda c: setattr(c, "susp", ""))
+        add(lambda c: setattr(c, "susp_eval", False))
     add(lambda c: setattr(c, "pre", []))
     add(lambda c: setattr(c, "hist", []))
     if len(sp.hist) > 1:
@@ -661,6 +966,7 @@ def shrink(case: Case):
             c.pos.pop()
         c.kw = [(n, a) for n, a in c.kw if n != name]
         c.params.pop()
+        c.kwonly.discard(name)
         used = {x[1] for x in c.written() if x[0] in ("v", "a")}
         c.doms = {i: d for i, d in c.doms.items() if i in used}
         c.pre = [i for i in c.pre if i in used]
@@ -950,7 +1256,11 @@ def _build(w: _World):
     names = [n for n, _ in sp.params]
     ns: Dict[str, Any] = {"_body": w.body}
     sig = []
+    star = False
     for j, (n, d) in enumerate(sp.params):
+        if n in sp.kwonly and not star:
+            sig.append("*")
+            star = True
         if d is None:
             sig.append(n)
         else:
@@ -977,22 +1287,88 @@ def _build(w: _World):
         import dataclasses
         fields = []
         for j, (n, d) in enumerate(sp.params):
+            ko = {"kw_only": True} if n in sp.kwonly else {}
             if d is None:
-                fields.append((n, object))
+                fields.append((n, object, dataclasses.field(**ko)) if ko else (n, object))
             else:
                 dv = ns[f"_d{j}"]
                 if isinstance(dv, list):  # dataclasses refuse mutable defaults; the factory returns the same object
-                    fields.append((n, object, dataclasses.field(default_factory=lambda dv=dv: dv)))
+                    fields.append((n, object, dataclasses.field(default_factory=lambda dv=dv: dv, **ko)))
                 else:
-                    fields.append((n, object, dataclasses.field(default=dv)))
+                    fields.append((n, object, dataclasses.field(default=dv, **ko)))
 
         def __call__(self):
             return w.body(tuple(getattr(self, n) for n in names))
 
+        def __call_derived__(self):
+            # reads ONLY what the constructor derived from the parameters
+            return w.body(self._seen_by_ctor)
+
+        if sp.ctor == "init":
+            # hand-written constructor that keeps nothing under the parameter names
+            src = (f"def __init__({', '.join(['self'] + sig)}):\n"
+                   f"    self._seen_by_ctor = ({', '.join(names)},)\n")
+            exec(src, ns)
+            P = type("P", (Predicate,), {"__init__": ns["__init__"], "__call__": __call_derived__, **knob_values})
+            return P, None
+        if sp.ctor == "post":
+            def __post_init__(self):
+                self._seen_by_ctor = tuple(getattr(self, n) for n in names)
+
+            P = dataclasses.make_dataclass("P", fields, bases=(Predicate,), eq=False,
+                                           namespace={"__call__": __call_derived__, "__post_init__": __post_init__,
+                                                      **knob_values})
+            return P, None
         P = dataclasses.make_dataclass("P", fields, bases=(Predicate,), eq=False,
                                        namespace={"__call__": __call__, **knob_values})
         return P, None
     raise ValueError(sp.kind)
+
+
+class _Suspended:
+    """another query, over a predicate / a symbolic function, whose `evaluate()` generator is advanced by ONE result and
+    then left suspended; `finish()` consumes the rest and checks that query's own results"""
+
+    def __init__(self, kind: str):
+        import dataclasses
+        from krrood.entity_query_language.entity import let, set_of
+        from krrood.entity_query_language.quantify_entity import an
+        from krrood.entity_query_language.predicate import symbolic_function, Predicate
+        self.problem = ""
+        self.calls: List[int] = []
+        calls = self.calls
+        z = let(int, [1, 2, 3])
+        if kind == "pred":
+            def __call__(self_):
+                calls.append(self_.v)
+                return self_.v != 2
+
+            Aux = dataclasses.make_dataclass("Aux", [("v", object)], bases=(Predicate,), eq=False,
+                                             namespace={"__call__": __call__})
+            cond = Aux(z)
+        else:
+            def aux(v):
+                calls.append(v)
+                return v != 2
+
+            cond = symbolic_function(aux)(z)
+        self.z = z
+        self.it = iter(an(set_of([z], cond)).evaluate())
+        self.got = [next(self.it)[z]]
+        self.done = False
+
+    def finish(self) -> bool:
+        """True iff something is wrong with the other query"""
+        if not self.done:
+            self.done = True
+            try:
+                self.got += [r[self.z] for r in self.it]
+            except Exception as e:  # noqa: BLE001
+                self.problem = "exc:" + type(e).__name__
+                return True
+            if self.got != [1, 3] or sorted(self.calls) != [1, 2, 3]:
+                self.problem = f"rows={self.got} calls={sorted(self.calls)}"
+        return bool(self.problem)
 
 
 def _one(sp: Spec) -> str:
@@ -1018,9 +1394,12 @@ def _one(sp: Spec) -> str:
 
         pos = [arg(x) for x in sp.pos]
         kw = {n: arg(x) for n, x in sp.kw}
+        aux = _Suspended(sp.susp) if sp.susp else None
         try:
             c = target(*pos, **kw)
         except Exception as e:  # noqa: BLE001
+            if aux is not None:
+                aux.finish()
             return "exc:" + type(e).__name__
         if not isinstance(c, w.SE):
             # executed immediately
@@ -1028,6 +1407,8 @@ def _one(sp: Spec) -> str:
                 if type(c) is not target or w.log:
                     return "C notplain"
                 c = c()  # the user asks the concrete predicate
+            if aux is not None and aux.finish():
+                return "C other-query-wrong:" + aux.problem
             if len(w.log) != 1:
                 return f"C calls={len(w.log)}"
             if c is not w.returned[0]:
@@ -1040,6 +1421,8 @@ def _one(sp: Spec) -> str:
         cond = and_(*conds) if len(conds) > 1 else cond
         sel = [variables[i] for i in order]
         query = an(set_of(sel, cond))  # ONE query object, evaluated once per world
+        if aux is not None and not sp.susp_eval:
+            aux.finish()
         outs = []
         for n_eval, world in enumerate([{}] + list(sp.hist)):
             head = "S " + (f"atctor={atctor} " if atctor and n_eval == 0 else "")
@@ -1054,6 +1437,10 @@ def _one(sp: Spec) -> str:
                 continue
             log = sorted("(" + ",".join(t) + ")" for t in w.log)
             outs.append(head + "log=[" + ",".join(log) + "] rows=[" + ",".join(sorted(set(rows))) + "]")
+            if aux is not None and n_eval == 0:
+                aux.finish()
+        if aux is not None and aux.problem:
+            return "S other-query-wrong:" + aux.problem
         return " ;; ".join(outs)
     except Exception as e:  # noqa: BLE001
         return "harness-exc:" + type(e).__name__ + ":" + str(e)[:80]
@@ -1064,7 +1451,8 @@ def _one(sp: Spec) -> str:
 def oracle(sp: Spec) -> str:
     """the property, as plain Python: inspect.Signature.bind + itertools.product + the body as a lambda"""
     P = inspect.Parameter
-    params = [P(n, P.POSITIONAL_OR_KEYWORD, default=P.empty if d is None else d) for n, d in sp.params]
+    params = [P(n, P.KEYWORD_ONLY if n in sp.kwonly else P.POSITIONAL_OR_KEYWORD, default=P.empty if d is None else d)
+              for n, d in sp.params]
     recv = []
     if sp.kind == "method":
         params = [P("self", P.POSITIONAL_OR_KEYWORD)] + params
